@@ -95,6 +95,10 @@ def streams(tier, rng, P, only=None, cases=None):
         n = 3000 if big else 400
         for i in range(n):
             src = mml.pr(mml.gen_program(rng)) if i % 3 else " ".join(rng.choice(ASCII_MML) for _ in range(rng.randrange(1, 12)))
+            if i % 4 == 1:
+                # several lines, with Windows line ends (a CR is a character of the text like any other: it stays where it is)
+                src = rng.choice(["\r\n", "\n", "\r\n\r\n"]).join(rng.choice(ASCII_MML) for _ in range(rng.randrange(2, 8)))
+                if rng.random() < 0.5: src += rng.choice([' TrackName={"a\r\nb"} c', " /* x\r\ny */ d", " // rem\r\ne"])
             src = rng.choice(["", " ", "\n\n", "\t"]) + src + rng.choice(["", " ", "\n"])
             if "~" in src: continue
             cs.append(dict(req="convert " + hx(src), src=src, show=src, key="a%d" % i))
